@@ -177,6 +177,10 @@ impl Property for C11 {
         // per-record reference runs are whole-buffer
         let len = case.stream().len() + case.pieces.len();
         case.delivery = gen_delivery(rng, len);
+        if rng.chance(1, 3) {
+            // ... and are written to a sink that takes a few bytes at a time
+            case.out = gen_sink_garnish(rng, 400);
+        }
         case
     }
 
